@@ -162,9 +162,11 @@ func c01LargeScope(ns []int) *drv.Scope {
 			nt := false
 			for _, fr := range allFillRules {
 				for _, ct := range allClipTypes {
+					drv.Alive()
 					sol := clipper.BooleanOpPaths64(ct, S, C, fr)
 					c.Exec(1)
 					c.Output(enum.HashPaths(sol))
+					drv.Alive()
 					reg.LoadSolution(sol)
 					m, n := reg.CheckBoolean(ct, fr, 2)
 					nt = nt || n
